@@ -504,10 +504,16 @@ func (e *engine) sharedObls(prop string) []*obligation {
 			fname := st.Field(i).Name()
 			sole := e.w.db.SoleWriter[tn+"."+fname]
 			o := &obligation{Func: "module", Name: "module/shared/" + tn + "." + fname, Kind: "frame", Label: prop + ".shared", Props: []string{prop},
-				Clause: "the field " + tn + "." + fname + " of the run-wide shared object is written, once goroutines run, only through sync/atomic" + map[bool]string{true: " or by its sole writer " + sole, false: ""}[sole != ""]}
+				Clause: "the field " + tn + "." + fname + " of the run-wide shared object is written, once goroutines run, only through sync/atomic" + map[bool]string{true: " or by its sole writer " + sole + ", and there before that function cancels the run's context (the release the driver waits for)", false: ""}[sole != ""]}
 			var bad []string
 			for _, fn := range fns {
-				if e.w.db.AtomicInit[fn.String()] || (sole != "" && fn.String() == sole) || !e.goReachable()[fn] {
+				if sole != "" && inFunction(fn, sole) {
+					// the sole writer (and the closures it contains): its plain writes must come before it releases the
+					// other goroutines - no write to the field is reachable from a call of a context.CancelFunc
+					bad = append(bad, e.writesAfterRelease(fn, tn, fname)...)
+					continue
+				}
+				if e.w.db.AtomicInit[fn.String()] || !e.goReachable()[fn] {
 					continue
 				}
 				for _, b := range fn.Blocks {
@@ -632,4 +638,119 @@ func (e *engine) madeHere(v ssa.Value) bool {
 		}
 	}
 	return false
+}
+
+// inFunction: fn is the function named name or a closure nested in it.
+func inFunction(fn *ssa.Function, name string) bool {
+	for f := fn; f != nil; f = f.Parent() {
+		if f.String() == name {
+			return true
+		}
+	}
+	return false
+}
+
+// writesAfterRelease: in the sole writer fn (one function or closure), a plain write to TYPE.field that can execute
+// after a call of a context.CancelFunc in the same function - directly, or at the function's exits when the call is
+// deferred. A write in a closure other than the one that cancels cannot be ordered by this scan and is reported too.
+func (e *engine) writesAfterRelease(fn *ssa.Function, tn, fname string) []string {
+	var bad []string
+	isCancel := func(c *ssa.CallCommon) bool {
+		if c.IsInvoke() {
+			return false
+		}
+		t := c.Value.Type()
+		if n, ok := t.(*types.Named); ok && n.Obj().Pkg() != nil && n.Obj().Pkg().Path() == "context" && n.Obj().Name() == "CancelFunc" {
+			return true
+		}
+		if ptr, ok := c.Value.(*ssa.UnOp); ok { // a captured variable: *fv
+			if pt, ok := ptr.X.Type().Underlying().(*types.Pointer); ok {
+				if n, ok := pt.Elem().(*types.Named); ok && n.Obj().Pkg() != nil && n.Obj().Pkg().Path() == "context" && n.Obj().Name() == "CancelFunc" {
+					return true
+				}
+			}
+		}
+		return false
+	}
+	type site struct {
+		b   *ssa.BasicBlock
+		idx int
+		pos string
+	}
+	var stores, releases []site
+	deferredRelease := false
+	for _, b := range fn.Blocks {
+		for i, ins := range b.Instrs {
+			switch x := ins.(type) {
+			case *ssa.Store:
+				for _, k := range fieldsOnPath(x.Addr) {
+					if k.typ == tn && k.name == fname && !isLocalAlloc(x.Addr) {
+						stores = append(stores, site{b, i, e.posOf(ins.Pos())})
+					}
+				}
+			case *ssa.Call:
+				if isCancel(x.Common()) {
+					releases = append(releases, site{b, i, e.posOf(ins.Pos())})
+				}
+			case *ssa.Defer:
+				if isCancel(x.Common()) {
+					deferredRelease = true
+				}
+			}
+		}
+	}
+	// a deferred cancel runs at the exits: after every write of this function - fine; but a write in a closure that is
+	// itself deferred by this function runs around the same time: report (cannot be ordered here)
+	_ = deferredRelease
+	if len(stores) == 0 {
+		return nil
+	}
+	reach := func(from, to *ssa.BasicBlock) bool {
+		seen := map[*ssa.BasicBlock]bool{}
+		var walk func(b *ssa.BasicBlock) bool
+		walk = func(b *ssa.BasicBlock) bool {
+			for _, s := range b.Succs {
+				if s == to {
+					return true
+				}
+				if !seen[s] {
+					seen[s] = true
+					if walk(s) {
+						return true
+					}
+				}
+			}
+			return false
+		}
+		return walk(from)
+	}
+	for _, st := range stores {
+		for _, r := range releases {
+			if (r.b == st.b && r.idx < st.idx) || reach(r.b, st.b) {
+				bad = append(bad, "plain write in "+fn.String()+" at "+st.pos+" can follow the cancel at "+r.pos)
+			}
+		}
+	}
+	// writes in a closure: the enclosing function (or another closure) may cancel before the closure runs
+	if fn.Parent() != nil {
+		for p := fn.Parent(); p != nil; p = p.Parent() {
+			for _, b := range p.Blocks {
+				for _, ins := range b.Instrs {
+					var cc *ssa.CallCommon
+					switch x := ins.(type) {
+					case *ssa.Call:
+						cc = x.Common()
+					case *ssa.Defer:
+						cc = x.Common()
+					}
+					if cc != nil && isCancel(cc) && len(releases) == 0 {
+						for _, st := range stores {
+							bad = append(bad, "plain write in the closure "+fn.String()+" at "+st.pos+" cannot be ordered before the cancel in "+p.String()+" at "+e.posOf(ins.Pos()))
+						}
+					}
+				}
+			}
+		}
+	}
+	return bad
 }
